@@ -6,9 +6,11 @@ mod c_inflights;
 mod c_quorum;
 mod c_memstorage;
 mod node;
+mod ptrace;
 mod sim;
 mod c_node;
 mod c_confchange;
+mod c_raftlog;
 
 fn main() {
     let args: Vec<String> = std::env::args().collect();
@@ -24,6 +26,7 @@ fn main() {
         "memstorage" => c_memstorage::main(rest),
         "node" => c_node::main(rest),
         "confchange" => c_confchange::main(rest),
+        "raftlog" => c_raftlog::main(rest),
         other => {
             eprintln!("unknown component {}", other);
             std::process::exit(2);
